@@ -1,0 +1,62 @@
+//go:build verif
+
+package graph
+
+// Ghost client code for /verif/govc: each function below is verified against
+// the CONTRACTS of the methods it calls (never their bodies), so its
+// postcondition is a lemma that follows from the contracts alone. Compiled only
+// with the build tag "verif"; never called.
+
+// Independence of copies (C19) is proved inductively: Copy establishes the
+// separation predicate sep(g, c) (contracts file), and every mutator applied
+// to one graph of a separated pair preserves sep and leaves every map of the
+// other graph untouched. Any sequence of mutations then follows by induction.
+
+// lemmaCopySeparates: a copy is separated from its original.
+func lemmaCopySeparates(g *Graph) *Graph {
+	return g.Copy()
+}
+
+func lemmaSepAdd(x, y *Graph, v Vertex)          { x.Add(v) }
+func lemmaSepAddOverwrite(x, y *Graph, v Vertex) { x.AddOverwrite(v) }
+func lemmaSepRemove(x, y *Graph, v Vertex)       { x.Remove(v) }
+func lemmaSepAddEdge(x, y *Graph, a, b Vertex, w int) {
+	x.AddEdgeWeighted(a, b, w)
+}
+func lemmaSepRemoveEdge(x, y *Graph, a, b Vertex) { x.RemoveEdge(a, b) }
+
+// lemmaReverseInvolution: reversing twice yields the same three maps (C19).
+func lemmaReverseInvolution(g *Graph) *Graph {
+	return g.Reverse().Reverse()
+}
+
+// lemmaReverseShares: a change made through the reversed view is visible in
+// the original, transposed (C19).
+func lemmaReverseShares(g *Graph, a, b Vertex, w int) {
+	r := g.Reverse()
+	r.Add(a)
+	r.Add(b)
+	r.AddEdgeWeighted(a, b, w)
+}
+
+// lemmaReAddKeepsEdges: re-adding or overwriting a vertex keeps its edges (C19).
+func lemmaReAddKeepsEdges(g *Graph, a Vertex) {
+	g.Add(a)
+	g.AddOverwrite(a)
+}
+
+// lemmaRemoveIncident: removing a vertex removes all its incident edges (C19).
+func lemmaRemoveIncident(g *Graph, a Vertex) {
+	g.Remove(a)
+}
+
+// lemmaLastWeight: the last weight set for an edge is the one used (C19).
+func lemmaLastWeight(g *Graph, a, b Vertex, w1, w2 int) {
+	g.AddEdgeWeighted(a, b, w1)
+	g.AddEdgeWeighted(a, b, w2)
+}
+
+// lemmaMirror: successors and predecessors are mirror images (C19).
+func lemmaMirror(g *Graph, a, b Vertex) ([]Vertex, []Vertex) {
+	return g.OutEdges(a), g.InEdges(b)
+}
